@@ -271,8 +271,17 @@ pub fn lit_sentinels() -> Vec<Program> {
             }
         }
     }
-    // S28: history ring overflow (9 stores to one location || 2 loads); soundness only
+    // S28: history ring overflow (more stores to one location than the tracked history holds);
+    // soundness only (C02's proviso excludes them, C03 checks every iteration that runs)
     out.push(mk("S28-overflow", 1, vec![(1..=9).map(|v| st(0, v, Rlx)).collect(), vec![ld(0, Rlx), ld(0, Rlx)]]));
+    for k in [7u64, 8, 10] {
+        for &l in &[Rlx, Acq] {
+            out.push(mk("S28-overflow", 1, vec![(1..=k).map(|v| st(0, v, if v % 2 == 0 { Rel } else { Rlx })).collect(), vec![ld(0, l), ld(0, l)]]));
+            out.push(mk("S28-overflow-rmw", 1, vec![(1..=k).map(|v| st(0, v, Rlx)).collect(), vec![ld(0, l), fadd(0, 16, Rlx)]]));
+        }
+    }
+    // two writers sharing the overflow
+    out.push(mk("S28-overflow-2w", 1, vec![(1..=4).map(|v| st(0, v, Rlx)).collect(), (5..=8).map(|v| st(0, v, Rlx)).collect(), vec![ld(0, Rlx), ld(0, Rlx)]]));
     out
 }
 
